@@ -237,6 +237,7 @@ func checkC19(c *Ctx) {
 	checkC19Readers(c)
 	checkC19VarsFrozen(c)
 	checkC19BatchTx(c)
+	checkC19FOCHandle(c, c.Rule("C19.foc-handle", "FirstOrCreate runs its Create on the chain's handle, not on the handle that executed the look-up", 1))
 
 	// ---- C19.subquery ----
 	rq := c.Rule("C19.subquery", "every pipeline execution started while rendering a value (Statement.AddVar) runs on a Session{DryRun: true} handle", 1)
